@@ -1,6 +1,7 @@
 import Cell2v.Driver.Util
 import Cell2v.Model.Mailbox
 import Cell2v.Driver.C09Ring
+import Cell2v.Driver.C09Mpsc
 /-!
 Model driver for C09.  The hooked real mailbox is driven one atomic step at a
 time by a controlling scheduler; every granted step is an op line
@@ -179,10 +180,31 @@ def specStepQ (s : Sp × C09Ring.SpQ) (line : String) : (Sp × C09Ring.SpQ) × S
       ((m, if (words op).head? == some "reset" then {} else s.2), o)
   | _ => let (m, o) := specStep s.1 line; ((m, s.2), o)
 
+/-! ### concurrent mpsc component (`mq …` lines, see `Driver/C09Mpsc.lean`): one more state next to the others -/
+
+def stepQM (s : (St × C09Ring.RS) × Cell2v.MpscConc.St) (line : String) : ((St × C09Ring.RS) × Cell2v.MpscConc.St) × String :=
+  if C09Mpsc.isMqOp line then
+    let (m, o) := C09Mpsc.mqStep s.2 (words line)
+    ((s.1, m), o)
+  else
+    let (r, o) := stepQ s.1 line
+    ((r, if (words line).head? == some "reset" then Cell2v.MpscConc.init else s.2), o)
+
+def specStepQM (s : (Sp × C09Ring.SpQ) × C09Mpsc.SpM) (line : String) : ((Sp × C09Ring.SpQ) × C09Mpsc.SpM) × String :=
+  match line.splitOn "\t" with
+  | [op, obs] =>
+    if C09Mpsc.isMqOp op then
+      let (m, o) := C09Mpsc.specMq s.2 op obs
+      ((s.1, m), o)
+    else
+      let (r, o) := specStepQ s.1 line
+      ((r, if (words op).head? == some "reset" then {} else s.2), o)
+  | _ => let (r, o) := specStepQ s.1 line; ((r, s.2), o)
+
 end Cell2v.Driver.C09
 
 open Cell2v.Driver in
 def main (args : List String) : IO Unit :=
   match args with
-  | ["spec"] => runLoop Cell2v.Driver.C09.specStepQ ({}, {})
-  | _ => runLoop Cell2v.Driver.C09.stepQ (Cell2v.Mailbox.Fine.init, {})
+  | ["spec"] => runLoop Cell2v.Driver.C09.specStepQM (({}, {}), {})
+  | _ => runLoop Cell2v.Driver.C09.stepQM ((Cell2v.Mailbox.Fine.init, {}), Cell2v.MpscConc.init)
